@@ -719,6 +719,11 @@ class Interp:
                 return SInt(w.unknown("attr_ndim", z3.IntSort())(z3.IntVal(v.id)))
             if attr == "item":
                 return _BoundSym(lambda: Opaque("item()"))
+            if attr in ("startswith", "endswith", "strip", "lstrip", "rstrip"):
+                # a string method on a key: meaningful once the path knows the object is a str
+                if not self.ctx.decide(w.isinst(v.T, str)):
+                    raise _Raise(SExc(AttributeError, (attr,)))
+                return _BoundSym(self.str_method(SStr(v.S), attr))
             raise Unsupported(f"attribute {attr} of a symbolic object")
         if isinstance(v, SType):
             if attr in ("__name__", "__qualname__"):
